@@ -78,6 +78,8 @@ class DCall:
     a: int
     def __call__(self):
         return 1
+PlainNT = collections.namedtuple("PlainNT", ["x", "y"])
+PairNT = collections.namedtuple("PairNT", ["x", "y"], defaults=[0])
 def _make_local():
     # classes created inside a function: their qualified name ('_make_local.<locals>.LPlain') cannot be resolved from the module
     class LPlain:
@@ -113,7 +115,9 @@ LEAVES = ["int", "str", "typing.Any", "object", "list", "dict", "tuple", "set", 
           # a TypeVar reached through a qualifier on a field of a user generic
           "FinalFree", "FinalBound", "FinalCn", "CVBound", "FinalFree[int]",
           # function-local classes (used once here, twice in the `reuse` family)
-          "LPlain", "LDC", "LBox"]
+          "LPlain", "LDC", "LBox",
+          # named tuples made by the collections factory: no annotations at all, the fields are pass-through positions
+          "PlainNT", "PairNT"]
 UNARY = ["list[{0}]", "typing.List[{0}]", "tuple[{0}, ...]", "dict[str, {0}]", "typing.Optional[{0}]", "typing.Sequence[{0}]",
          "collections.abc.Mapping[str, {0}]", "frozenset[{0}]", "G[{0}]"]
 BINARY = ["tuple[{0}, {1}]", "typing.Union[{0}, {1}]", "dict[{0}, {1}]"]
@@ -250,6 +254,20 @@ def child(job):
                         pt.append(f"marshaller({src}) did not marshal the instance: {m(t(5))!r}")
             except Exception as e:  # noqa: BLE001
                 pt.append(f"qualified-TypeVar field probe raised {type(e).__name__}: {e}"[:160])
+        if src in ("PlainNT", "PairNT"):
+            try:
+                r = u({"x": s, "y": "text"})
+                if type(r) is not t or r.x is not s or r.y != "text":
+                    pt.append(f"unmarshaller({src}) did not build the named tuple from its field names: {r!r}")
+                w = m(t(s, "text"))
+                if not (isinstance(w, dict) and w.get("x") is s and w.get("y") == "text"):
+                    pt.append(f"marshaller({src}) did not yield the fields by name: {w!r}")
+                if src == "PairNT":
+                    r2 = u({"x": 1})
+                    if r2 != t(1, 0):
+                        pt.append(f"unmarshaller(PairNT)({{'x': 1}}) = {r2!r}, expected the default for y")
+            except Exception as e:  # noqa: BLE001
+                pt.append(f"hint-less named tuple probe raised {type(e).__name__}: {e}"[:160])
         # the parameters of a class without any annotation cannot be resolved: they are pass-through positions (whatever their defaults)
         if src == "NoHints":
             try:
